@@ -465,26 +465,56 @@ pub fn value_type_to_string(value: &Option<ValueType>) -> String {
     }
 }
 
-#[derive(Debug, Clone, Copy, PartialEq, PartialOrd)]
+#[derive(Debug, Clone, Copy)]
 pub struct Float(pub f64);
 
+// Equality, ordering and hashing of REAL values agree with each other and form a total order:
+// numbers by value (-0.0 = 0.0), NaN equal to itself and larger than every other value.
+impl PartialEq for Float {
+    fn eq(&self, other: &Self) -> bool {
+        self.cmp(other) == Ordering::Equal
+    }
+}
+
 impl Eq for Float {}
+
+impl PartialOrd for Float {
+    fn partial_cmp(&self, other: &Self) -> Option<Ordering> {
+        Some(self.cmp(other))
+    }
+}
+
 impl Ord for Float {
     fn cmp(&self, other: &Self) -> Ordering {
-        if self.0 < other.0 {
-            Ordering::Less
-        } else if self.0 > other.0 {
-            Ordering::Greater
-        } else {
-            Ordering::Equal
+        match (self.0.is_nan(), other.0.is_nan()) {
+            (true, true) => Ordering::Equal,
+            (true, false) => Ordering::Greater,
+            (false, true) => Ordering::Less,
+            (false, false) => {
+                if self.0 < other.0 {
+                    Ordering::Less
+                } else if self.0 > other.0 {
+                    Ordering::Greater
+                } else {
+                    Ordering::Equal
+                }
+            }
         }
     }
 }
 
 impl Hash for Float {
     fn hash<H: Hasher>(&self, state: &mut H) {
-        let bits: u64 = unsafe { std::mem::transmute(self.0) };
-        bits.hash(state)
+        // Equal values must hash equally: one representation for the two zeros and for all NaNs
+        let value = if self.0 == 0.0 {
+            0.0
+        } else if self.0.is_nan() {
+            f64::NAN
+        } else {
+            self.0
+        };
+
+        value.to_bits().hash(state)
     }
 }
 
